@@ -373,6 +373,13 @@ def _invisible(ctx, em):
                    'dot names (temp files) are ignored before acting')
 
 
+def _in_handler(graph, node):
+    """node lies in an except handler (reached only through exceptional
+    edges from the entry)."""
+    normal = K.cut_reach(graph, graph.entry, follow_exc=False)
+    return node not in normal
+
+
 def _content(ctx, em):
     cache = em.methods.get('_cache')
     graph = ctx.cfg(cache)
@@ -424,6 +431,48 @@ def _content(ctx, em):
                defs.get('manifest_file') ==
                'os.path.join(self.tm_env.cache_dir, %s)' % app,
                'written to <cache>/<instance>', construct='cache path')
+    # the only way to leave without writing although the placement exists:
+    # the cached file is at least as new as the placement record
+    adefs = {}
+    for sub in K.walk_no_nested(cache.node):
+        if isinstance(sub, ast.Assign) and isinstance(sub.targets[0],
+                                                      ast.Name):
+            adefs.setdefault(sub.targets[0].id, []).append(sub.value)
+
+    def fresh(atom):
+        key = atom.key
+        if key[0] != 'cmp' or key[1] not in ('<=', '<') or \
+                len(key[2]) != 2:
+            return False
+        coef = dict(key[2])
+        older = [t for t, c in coef.items() if c > 0]
+        newer = [t for t, c in coef.items() if c < 0]
+        if len(older) != 1 or len(newer) != 1 or key[1] != '<=':
+            return False
+        pdef = adefs.get(older[0], [])
+        mdef = [v for v in adefs.get(newer[0], [])
+                if not (isinstance(v, ast.Constant) and v.value is None)]
+        return len(pdef) == 1 and K.exact_ms_to_s(pdef[0]) is not None and \
+            len(mdef) == 1 and N.txt(mdef[0]).startswith('os.stat(') and \
+            N.txt(mdef[0]).endswith('.st_ctime')
+    for node in graph.nodes:
+        if node.kind != 'return' or any(node is w for w, _c in writes):
+            continue
+        if _in_handler(graph, node):
+            continue
+        path = K.find_path(graph.entry, [node],
+                           cut_node=lambda n: any(n is w for w, _c in writes),
+                           follow_exc=True)
+        if path is None:
+            continue
+        ok = K.guarded_by_atoms(ctx, cache, graph, node, fresh, nz,
+                                follow_exc=False)
+        ctx.ob('C12.5', cache, node, ok,
+               'an existing cache file is kept only when its change time '
+               'is >= the creation time of the placement record (seconds, '
+               'converted from milliseconds without truncation)',
+               construct='up-to-date shortcut [%s]' %
+               K.controlling(node, graph))
     pn = defs.get('placement_node', '')
     ctx.ob('C12.5', cache, None,
            pn == 'z.path.placement(self._hostname, %s)' % app,
